@@ -1,6 +1,7 @@
 import TabulaModel.Util
 import TabulaModel.Model.Package
 import TabulaModel.Model.PackageApi
+import TabulaModel.Model.PackageBind
 /-!
 Line protocol of C18.
 
@@ -20,6 +21,11 @@ Line protocol of C18.
     epub `<Chapter.Index>:<cid>:<hex Href>:<hex ID>`
     `T,<Id>.<Type>.<Target>,…`  relationships with their types (slide relationship parts)
     `N`                     notes slide
+`c18.bind <fmt> a=… x=…` → as `c18.pkg`, the declaring parts given at ATTRIBUTE level
+  (Model/PackageBind.lean): spec `w,<elem>,…` workbook from its `<sheet>` elements,
+  `q,<elem>,…` presentation from its `<sldId>` elements, `t,<elem>,…` relationship part
+  from its `<Relationship>` elements; elem = attributes in document order joined by `_`
+  (`z` = none), attribute = `<hex namespace URI>.<hex local name>.<hex value>`.
 `c18.href <hexbase> <hexhref>` → hex of `resolveHref`.
 `c18.pptxn a=… x=…` → `err` or `ok` + per slide `<Slide.Index>:<cid>:<notes cid|->`
   (pptx.Open with parseSlideRelationships / parseSlideNotes).
@@ -55,6 +61,9 @@ def parseTriple (s : String) : Option (Str × Str × Str) :=
   | [a, b, c] => do pure (← unhexS a, ← unhexS b, ← unhexS c)
   | _ => none
 
+def parseElem (s : String) : Option (List PackageBind.Attr) :=
+  if s == "z" then some [] else (s.splitOn "_").mapM parseTriple
+
 def parseSpec (s : String) : Option Doc :=
   match s.splitOn "/" with
   | [one] =>
@@ -69,6 +78,9 @@ def parseSpec (s : String) : Option Doc :=
     | "R" :: ps => (ps.mapM parsePair).map .rels
     | "Q" :: ids => (ids.mapM unhexS).map fun l => .presentation (some l)
     | "C" :: ps => (ps.mapM parsePair).map .container
+    | "w" :: es => (es.mapM parseElem).map PackageBind.bindWorkbook
+    | "q" :: es => (es.mapM parseElem).map fun l => PackageBind.bindPresentation (some l)
+    | "t" :: es => (es.mapM parseElem).map PackageBind.bindRels
     | _ => none
   | [f, i] =>
     match f.splitOn ",", i.splitOn "," with
@@ -331,7 +343,7 @@ def handle (op : String) (args : List String) : String :=
     match unhexS b, unhexS h with
     | some b, some h => hexS (resolveHref b h)
     | _, _ => "bad-op"
-  | "c18.pkg", [fmt, a, x] =>
+  | "c18.pkg", [fmt, a, x] | "c18.bind", [fmt, a, x] =>
     if !(a.startsWith "a=" && x.startsWith "x=") then "bad-op" else
     match parseArchive (a.drop 2).toString, parseDocs (x.drop 2).toString with
     | some arch, some docs =>
